@@ -197,6 +197,25 @@ func f2ArithmeticEdges() []BashCase {
 			}
 		}
 	}
+	// comparisons at the edges and between values far apart (a difference that does not fit the word); the second list
+	// stays inside 32 bits so that the Batch run keeps these programs
+	for wi, cv := range [][]int64{vals, {0, 1, -1, 2000000000, -2000000000, 1500000000, -1500000000, 2147483647, -2147483647, 7}} {
+		for _, op := range []string{"==", "!=", "<", "<=", ">", ">="} {
+			for ai, a := range cv {
+				stmts := []Stmt{VarDecl{Names: []string{"x", "y"}, Type: TInt}}
+				for _, b := range cv {
+					stmts = append(stmts, set("x", il(a)), set("y", il(b)), pr(cmp(op, vr("x"), vr("y")), cmp(op, il(a), il(b)), cmp(op, vr("x"), il(b))))
+				}
+				// a minimum search, the way such comparisons are used
+				stmts = append(stmts, def("best", il(a)))
+				for _, b := range cv {
+					stmts = append(stmts, set("y", il(b)), ifs(cmp(op, vr("y"), vr("best")), set("best", vr("y"))))
+				}
+				stmts = append(stmts, pr(vr("best")))
+				cases = append(cases, BashCase{Key: fmt.Sprintf("F2/compare%d/%s/a#%d=%d", wi, op, ai, a), Prog: SingleFile(stmts)})
+			}
+		}
+	}
 	// compound forms and ++/-- at the edges
 	for i, a := range vals {
 		stmts := []Stmt{def("x", il(a)), IncDec{"x", true}, pr(vr("x")), set("x", il(a)), IncDec{"x", false}, pr(vr("x"))}
